@@ -82,6 +82,12 @@ SPECS = [
     dict(name="ext4_bigextent", kb=65536, big=True,
          args="-t ext4 -b 1024 -O sparse_super2,^has_journal -E num_backup_sb=0", tree="tiny",
          extras=["bigfile"]),
+    # inode tables of 26 blocks per group (not a multiple of the 8-block scan window), inodes in
+    # use in groups 0 and 1
+    dict(name="ext4_oddtable", kb=24576, args="-t ext4 -b 1024 -I 256 -g 8192 -N 312 -J size=1", tree="std"),
+    # external journal devices (s_first = 3 at 1k blocks, 2 at 4k): journal replay checks only
+    dict(name="ext4_xj1k", kb=8192, big=True, args="-t ext4 -b 1024 -I 256", extjournal=2048, tree="tiny"),
+    dict(name="ext4_xj4k", kb=16384, big=True, args="-t ext4 -b 4096 -I 256", extjournal=8192, tree="tiny"),
     dict(name="ext4_4k_encodings", kb=16384, args="-t ext4 -b 4096 -O ^has_journal,stable_inodes", tree="std"),
 ]
 
@@ -154,7 +160,9 @@ def build_image(b, spec, path, work, seed=0, keep_tree=False):
                      "-U", "11111111-2222-3333-4444-555555555555", jdev], env=env)
         if r.rc != 0:
             raise ZooError("mke2fs journal_dev failed: " + r.etext)
-        args += ["-J", "device=" + jdev]
+        # mke2fs -J device= insists on a block device: make the filesystem without a journal
+        # and attach the journal device afterwards (see below)
+        args += ["-O", "^has_journal"]
     tdir = None
     if spec["tree"]:
         tdir = os.path.join(work, "tree-" + spec["name"])
@@ -165,6 +173,26 @@ def build_image(b, spec, path, work, seed=0, keep_tree=False):
     r = run.run(args, env=env, timeout=300)
     if r.rc != 0:
         raise ZooError("mke2fs failed for %s: rc=%s %s" % (spec["name"], r.rc, r.etext[-500:]))
+    if jdev:
+        import struct
+        r = run.run([b.tool("debugfs"), "-w", "-f", "-", path], env=env, timeout=300,
+                    stdin=b"ssv journal_inum 0\nfeature has_journal\nssv journal_dev 0x9999\n"
+                          b"ssv journal_uuid 11111111-2222-3333-4444-555555555555\n")
+        if r.rc != 0:
+            raise ZooError("attaching the external journal failed: " + r.etext[-300:])
+        bsz = int(bs)
+        jo = (2 if bsz == 1024 else 1) * bsz
+        with open(path, "rb") as f:
+            f.seek(1024 + 104)
+            fsuuid = f.read(16)
+        with open(jdev, "r+b") as f:          # one user: this filesystem
+            f.seek(jo + 64)
+            f.write(struct.pack(">I", 1))
+            f.seek(jo + 0x100)
+            f.write(fsuuid)
+        r = run.run([b.tool("e2fsck"), "-fy", "-j", jdev, path], env=env, timeout=300)
+        if r.rc not in (0, 1):
+            raise ZooError("settling the external journal pair failed rc=%s: %s" % (r.rc, r.text[-500:]))
     script = []
     ex = spec.get("extras", [])
     if "xattrs" in ex:
